@@ -20,13 +20,18 @@ static const jwt_claims_t CTYPE[] = { JWT_CLAIM_ISS, JWT_CLAIM_SUB, JWT_CLAIM_AU
 
 typedef struct {
 	int exp_i, nbf_i, str[3];
+	/* iss only: the last claim_set(ISS, ...) was refused (value not UTF-8).  What is then in force is either the earlier
+	 * expectation (str[0], "nothing changed") or an expectation nothing satisfies (the pinned tree fails closed) --
+	 * never no expectation at all when there was one before */
+	int limbo;
 } cst_t;
 
-#define NSTATES (NEXPL * NNBFL * NSTRV * NSTRV * NSTRV)
-static int st_id(const cst_t *s) { return (((s->exp_i * NNBFL + s->nbf_i) * NSTRV + s->str[0]) * NSTRV + s->str[1]) * NSTRV + s->str[2]; }
+#define NSTATES (2 * NEXPL * NNBFL * NSTRV * NSTRV * NSTRV)
+static int st_id(const cst_t *s) { return ((((s->exp_i * NNBFL + s->nbf_i) * NSTRV + s->str[0]) * NSTRV + s->str[1]) * NSTRV + s->str[2]) * 2 + s->limbo; }
 static cst_t st_of(int id)
 {
 	cst_t s;
+	s.limbo = id % 2; id /= 2;
 	s.str[2] = id % NSTRV; id /= NSTRV;
 	s.str[1] = id % NSTRV; id /= NSTRV;
 	s.str[0] = id % NSTRV; id /= NSTRV;
@@ -44,7 +49,8 @@ static cst_t st_of(int id)
 #define OP_BAD_SET_NULL (OP_BAD_SET_EXP + 2)
 #define OP_BAD_SET_IAT (OP_BAD_SET_EXP + 3)
 #define OP_BAD_DEL_EXP (OP_BAD_SET_EXP + 4)
-#define NOPS (OP_BAD_SET_EXP + 5)
+#define OP_BAD_SET_UTF8 (OP_BAD_SET_EXP + 5)
+#define NOPS (OP_BAD_SET_EXP + 6)
 
 static const char *op_name(int op)
 {
@@ -63,6 +69,7 @@ static const char *op_name(int op)
 	else if (op == OP_BAD_LEE_ISS) snprintf(b, sizeof b, "time_leeway(ISS,3)!");
 	else if (op == OP_BAD_SET_NULL) snprintf(b, sizeof b, "claim_set(ISS,NULL)!");
 	else if (op == OP_BAD_SET_IAT) snprintf(b, sizeof b, "claim_set(IAT,x)!");
+	else if (op == OP_BAD_SET_UTF8) snprintf(b, sizeof b, "claim_set(ISS,<not UTF-8>)!");
 	else snprintf(b, sizeof b, "claim_del(EXP)!");
 	return b;
 }
@@ -73,6 +80,8 @@ static int model_step(cst_t *s, int op)
 	if (op < OP_EXPLEE) {
 		int c = op / PERCLAIM, k = op % PERCLAIM;
 		s->str[c] = k == PERCLAIM - 1 ? 0 : k + 1;
+		if (c == 0)
+			s->limbo = 0;
 		return 0;
 	}
 	if (op < OP_NBFLEE) {
@@ -83,6 +92,8 @@ static int model_step(cst_t *s, int op)
 		s->nbf_i = op - OP_NBFLEE;
 		return 0;
 	}
+	if (op == OP_BAD_SET_UTF8)
+		s->limbo = 1;
 	return 1; /* invalid calls: error, nothing changes */
 }
 
@@ -103,6 +114,7 @@ static int impl_step(jwt_checker_t *c, int op)
 	case OP_BAD_LEE_ISS: return jwt_checker_time_leeway(c, JWT_CLAIM_ISS, 3) != 0;
 	case OP_BAD_SET_NULL: return jwt_checker_claim_set(c, JWT_CLAIM_ISS, NULL) != 0;
 	case OP_BAD_SET_IAT: return jwt_checker_claim_set(c, JWT_CLAIM_IAT, "x") != 0;
+	case OP_BAD_SET_UTF8: return jwt_checker_claim_set(c, JWT_CLAIM_ISS, "caf\xe9") != 0;
 	default: return jwt_checker_claim_del(c, JWT_CLAIM_EXP) != 0;
 	}
 }
@@ -302,15 +314,23 @@ static int ref_claims(const probe_t *p, const cst_t *s, time_t now, const char *
 			if (!(v <= (long)now + nl)) { fail = 1; *why = "nbf"; }
 		}
 	}
+	int iss_open = 0;
 	for (int c = 0; c < 3 && !fail; c++) {
+		const sshape_t *sh = &SSHAPES[p->s[c]];
+		if (c == 0 && s->limbo) {
+			/* no earlier expectation: nothing or fail-closed; earlier expectation: it, or fail-closed */
+			if (!s->str[0] || (sh->kind == SK_STR && sh->equal))
+				iss_open = 1;
+			else { fail = 1; *why = CNAME[c]; }
+			continue;
+		}
 		if (!s->str[c])
 			continue;
-		const sshape_t *sh = &SSHAPES[p->s[c]];
 		if (!(sh->kind == SK_STR && sh->equal)) { fail = 1; *why = CNAME[c]; }
 	}
 	if (fail)
 		return 0;
-	if (poison)
+	if (poison || iss_open)
 		return -1;   /* every enabled check passes but the payload is not acceptable JSON for jansson */
 	return 1;
 }
@@ -322,7 +342,7 @@ static void bfs(void)
 {
 	for (int i = 0; i < NSTATES; i++)
 		parent[i] = -2;
-	cst_t init = { 1, 1, { 0, 0, 0 } };
+	cst_t init = { 1, 1, { 0, 0, 0 }, 0 };
 	int q[NSTATES], qh = 0, qt = 0;
 	int id0 = st_id(&init);
 	parent[id0] = -1;
@@ -390,6 +410,8 @@ static void check_observers(jwt_checker_t *c, const cst_t *s, const int *ops, in
 	for (int k = 0; k < 3; k++) {
 		const char *got = jwt_checker_claim_get(c, CTYPE[k]);
 		const char *want = STRV[s->str[k]];
+		if (k == 0 && s->limbo && (got == NULL || (want && !strcmp(got, want))))
+			continue;   /* after a refused claim_set: the earlier value or none */
 		if ((got == NULL) != (want == NULL) || (got && strcmp(got, want)))
 			vf_violation("claim_get-differs", "claim_get(%s)=%s, model %s after %s", CNAME[k], got ? got : "NULL", want ? want : "NULL", hist_str(ops, n));
 	}
@@ -510,6 +532,8 @@ static void enumerate_c04(void)
 		det[m++] = OP_NBFLEE + want.nbf_i;
 		for (int c = 0; c < 3; c++)
 			det[m++] = c * PERCLAIM + (want.str[c] == 0 ? PERCLAIM - 1 : want.str[c] - 1);
+		if (want.limbo)
+			det[m++] = OP_BAD_SET_UTF8;
 		cst_t s;
 		int div;
 		jwt_checker_t *c = replay_history(det, m, &s, &div);
